@@ -68,6 +68,8 @@ ROLES = {
     "classattr": ("class U:\n    {N} = 'A'\n    w = {N}\n", "U.{N} + U.w"),
     "looptarget": ("for {N} in ['T']:\n    pass\n", "{N}"),
     "alias": ("import math as {N}\n", "{N}.__name__"),
+    "fromalias": ("from math import pi as {N}\n", "int({N})"),
+    "multialias": ("import os, math as {N}\nfrom os import sep, path as {N}2\n", "{N}.__name__"),
     "nonlocal": ("def user():\n    {N} = 'N0'\n    def inner():\n        nonlocal {N}\n        {N} = {N} + '1'\n        return {N}\n    return inner() + {N}\n", "user()"),
     "comptarget": ("", "[{N} for {N} in 'ab']"),
     "lambdaparam": ("", "(lambda {N}: {N})('LP')"),
